@@ -469,3 +469,37 @@ func StdParams(fib bool) *spb.ModifyRequest {
 func Election(hi, lo uint64) *spb.ModifyRequest {
 	return &spb.ModifyRequest{ElectionId: &spb.Uint128{High: hi, Low: lo}}
 }
+
+// WaitOneOrEnd waits until the session has produced at least one unconsumed
+// response or its RPC ended (used for sessions that have not negotiated, where
+// no barrier is possible: every message yields exactly one response or ends
+// the RPC).
+func (x *Session) WaitOneOrEnd() (resps []*spb.ModifyResponse, ended bool, hang *Hang) {
+	timer := time.AfterFunc(Watchdog, func() {
+		x.mu.Lock()
+		x.cond.Broadcast()
+		x.mu.Unlock()
+	})
+	defer timer.Stop()
+	deadline := time.Now().Add(Watchdog)
+	x.mu.Lock()
+	for !x.ended && len(x.out) == x.read {
+		if time.Now().After(deadline) {
+			x.mu.Unlock()
+			return nil, false, x.hang("wait for a response or RPC end")
+		}
+		x.cond.Wait()
+	}
+	if !x.ended {
+		r := x.take()
+		x.mu.Unlock()
+		return r, false, nil
+	}
+	x.mu.Unlock()
+	if h := x.quiesceEnded(); h != nil {
+		return nil, true, h
+	}
+	x.mu.Lock()
+	defer x.mu.Unlock()
+	return append(x.take(), x.late...), true, nil
+}
